@@ -6,6 +6,8 @@
 //	C14 (TestVerifWireEnc): vote / commit / neighbour / catch-up request / catch-up response messages, and the
 //	     Commit / Justification structures, encode (ToConsensusMessage, scale.Marshal) to the bytes the TLA+
 //	     layouts prescribe and decode back (decodeMessage, scale.Unmarshal) to the same value.
+//	     The warp sync proof (lib/grandpa/warp_sync.go WarpSyncProof: fragments of header + justification)
+//	     is compared with the CtWarpProof layout, whose block numbers are 4 bytes as on Polkadot.
 //	C33 (TestVerifWireDec): for every TLC-generated input (EVERY truncation of a valid message, each
 //	     discriminant and each length prefix perturbed: +-1, widened, huge) the verdict of the real
 //	     decodeMessage is ScDec's, an accepted message re-encodes to the consumed prefix; no panic, bounded
@@ -25,7 +27,14 @@ import (
 	"time"
 
 	"github.com/ChainSafe/gossamer/dot/network"
+	"github.com/ChainSafe/gossamer/dot/types"
+	clientgrandpa "github.com/ChainSafe/gossamer/internal/client/consensus/grandpa"
+	primgrandpa "github.com/ChainSafe/gossamer/internal/primitives/consensus/grandpa"
+	"github.com/ChainSafe/gossamer/internal/primitives/core/hash"
+	primruntime "github.com/ChainSafe/gossamer/internal/primitives/runtime"
+	"github.com/ChainSafe/gossamer/internal/primitives/runtime/generic"
 	"github.com/ChainSafe/gossamer/lib/common"
+	finality "github.com/ChainSafe/gossamer/pkg/finality-grandpa"
 	"github.com/ChainSafe/gossamer/pkg/scale"
 )
 
@@ -39,6 +48,7 @@ type vwCase struct {
 	} `json:"o"`
 	Res struct {
 		Enc VB     `json:"enc"`
+		Alt VB     `json:"alt"`
 		Ok  bool   `json:"ok"`
 		N   int    `json:"n"`
 		At  string `json:"at"`
@@ -209,6 +219,74 @@ func vwGossip(ty string) bool {
 	return false
 }
 
+// vwHeader builds a dot/types header from a header value (parent, number, state root, extrinsics root, digest).
+func vwHeader(raw json.RawMessage) types.Header {
+	f := vwList(raw)
+	d := types.NewDigest()
+	for _, x := range vwList(f[4]) {
+		it := vwEnumOf(x)
+		var err error
+		switch it.I {
+		case 4, 5, 6:
+			p := vwList(it.V)
+			var id types.ConsensusEngineID
+			copy(id[:], vwBytes(p[0]))
+			data := vwBytes(p[1])
+			switch it.I {
+			case 4:
+				err = d.Add(types.ConsensusDigest{ConsensusEngineID: id, Data: data})
+			case 5:
+				err = d.Add(types.SealDigest{ConsensusEngineID: id, Data: data})
+			case 6:
+				err = d.Add(types.PreRuntimeDigest{ConsensusEngineID: id, Data: data})
+			}
+		case 8:
+			err = d.Add(types.RuntimeEnvironmentUpdated{})
+		default:
+			panic("VERIF-INFRA warp fragment header with an unrepresentable digest item")
+		}
+		if err != nil {
+			panic("VERIF-INFRA digest add: " + err.Error())
+		}
+	}
+	return *types.NewHeader(common.BytesToHash(vwBytes(f[0])), common.BytesToHash(vwBytes(f[2])), common.BytesToHash(vwBytes(f[3])), uint(vwUint(f[1])), d)
+}
+
+// vwWarpProof builds the proof; the Go type fixes the block number type of the justification (uint64).
+func vwWarpProof(raw json.RawMessage) WarpSyncProof {
+	top := vwList(raw)
+	w := NewWarpSyncProof()
+	if err := json.Unmarshal(top[1], &w.IsFinished); err != nil {
+		panic("VERIF-INFRA is-finished")
+	}
+	for _, fr := range vwList(top[0]) {
+		ff := vwList(fr)
+		jf := vwList(ff[1])
+		cf := vwList(jf[1])
+		j := primgrandpa.GrandpaJustification[hash.H256, uint64]{Round: vwUint(jf[0])}
+		j.Commit.TargetHash = hash.H256(vwBytes(cf[0]))
+		j.Commit.TargetNumber = vwUint(cf[1])
+		for _, x := range vwList(cf[2]) {
+			sv := vwList(x)
+			v := vwList(sv[0])
+			sp := finality.SignedPrecommit[hash.H256, uint64, primgrandpa.AuthoritySignature, primgrandpa.AuthorityID]{
+				Precommit: finality.Precommit[hash.H256, uint64]{TargetHash: hash.H256(vwBytes(v[0])), TargetNumber: vwUint(v[1])}}
+			copy(sp.Signature[:], vwBytes(sv[1]))
+			copy(sp.ID[:], vwBytes(sv[2]))
+			j.Commit.Precommits = append(j.Commit.Precommits, sp)
+		}
+		j.VoteAncestries = make([]primruntime.Header[uint64, hash.H256], 0)
+		for _, x := range vwList(jf[2]) {
+			h := vwList(x)
+			j.VoteAncestries = append(j.VoteAncestries, generic.NewHeader[uint64, hash.H256, primruntime.BlakeTwo256](
+				vwUint(h[1]), hash.H256(vwBytes(h[3])), hash.H256(vwBytes(h[2])), hash.H256(vwBytes(h[0])), primruntime.Digest{}))
+		}
+		w.Proofs = append(w.Proofs, WarpSyncFragment{Header: vwHeader(ff[0]),
+			Justification: clientgrandpa.GrandpaJustification[hash.H256, uint64]{Justification: j}})
+	}
+	return w
+}
+
 // ---- C14 ------------------------------------------------------------------------------------
 
 func TestVerifWireEnc(t *testing.T) {
@@ -222,7 +300,7 @@ func TestVerifWireEnc(t *testing.T) {
 			if err := json.Unmarshal(raw, &c); err != nil {
 				t.Fatalf("VERIF-INFRA case json: %v", err)
 			}
-			if c.O.Op != "enc" || !(vwGossip(c.O.Ty) || c.O.Ty == "gcommitj" || c.O.Ty == "gjust") {
+			if c.O.Op != "enc" || !(vwGossip(c.O.Ty) || c.O.Ty == "gcommitj" || c.O.Ty == "gjust" || c.O.Ty == "warpproof") {
 				continue
 			}
 			prefix := json.RawMessage("[" + string(raw) + "]")
@@ -266,6 +344,36 @@ func TestVerifWireEnc(t *testing.T) {
 						fail("decodeMessage", vwShow(m), "error: "+err.Error(), "C14/"+ty+"/decode/error")
 					} else if !reflect.DeepEqual(vwNorm(back), vwNorm(m)) {
 						fail("decodeMessage", vwShow(m), vwShow(back), "C14/"+ty+"/decode/value")
+					}
+				case ty == "warpproof":
+					w := vwWarpProof(c.O.V)
+					cls := fmt.Sprintf("%d-fragments", len(w.Proofs))
+					if len(w.Proofs) > 0 {
+						cls = "with-fragments"
+					}
+					enc, err := scale.Marshal(w)
+					res.Cmp()
+					switch {
+					case err != nil:
+						fail("Marshal(WarpSyncProof)", vHex(exp), "error: "+err.Error(), "C14/warpproof/"+cls+"/encode/error")
+					case bytes.Equal(enc, exp):
+					case bytes.Equal(enc, c.Res.Alt.Bytes()):
+						fail("Marshal(WarpSyncProof)", vHex(exp), vHex(enc), "C14/warpproof/"+cls+"/encode/block-number-8-bytes")
+					default:
+						fail("Marshal(WarpSyncProof)", vHex(exp), vHex(enc), "C14/warpproof/"+cls+"/encode/bytes")
+					}
+					// what this node wrote it must be able to read (WarpSyncProofProvider.Verify starts with this)
+					if err == nil {
+						var back WarpSyncProof
+						var derr error
+						res.Cmp()
+						if pm := vTry(func() { derr = scale.Unmarshal(enc, &back) }); pm != "" {
+							fail("Unmarshal(Marshal(WarpSyncProof))", "the proof", pm, "C14/warpproof/"+cls+"/decode-own/panic")
+						} else if derr != nil {
+							fail("Unmarshal(Marshal(WarpSyncProof))", "the proof", "error: "+derr.Error(), "C14/warpproof/"+cls+"/decode-own/error")
+						} else if re, err := scale.Marshal(back); err != nil || !bytes.Equal(re, enc) {
+							fail("Marshal(Unmarshal(Marshal(WarpSyncProof)))", vHex(enc), vHex(re)+fmt.Sprint(err), "C14/warpproof/"+cls+"/decode-own/value")
+						}
 					}
 				case ty == "gcommitj":
 					f := vwList(c.O.V)
@@ -452,6 +560,103 @@ func TestVerifWireDec(t *testing.T) {
 		}
 	}
 	vwSeeded(res, valid)
+	vwSeededWarp(res)
+}
+
+// vwSeededWarp: the warp sync proof decoder (the first statement of WarpSyncProofProvider.Verify is
+// scale.Unmarshal into WarpSyncProof) on seeded edits of proofs in the layout this node itself writes
+// (8-byte block numbers, see C14), with 0, 1 and 2 ancestry headers.  Declarative rules only.
+func vwSeededWarp(res *vResult) {
+	hdr := func(n byte) []byte {
+		h := append(append(bytes.Repeat([]byte{n}, 32), n<<2), bytes.Repeat([]byte{n + 1}, 64)...)
+		return append(h, 0)
+	}
+	var bases [][]byte
+	for anc := 0; anc <= 2; anc++ {
+		b := []byte{4}
+		b = append(b, hdr(7)...)
+		b = append(b, 1, 0, 0, 0, 0, 0, 0, 0)             // round
+		b = append(b, bytes.Repeat([]byte{9}, 32)...)     // commit target hash
+		b = append(b, 7, 0, 0, 0, 0, 0, 0, 0)             // commit target number
+		b = append(b, 4)                                  // one precommit
+		b = append(b, bytes.Repeat([]byte{9}, 32)...)     //   target hash
+		b = append(b, 7, 0, 0, 0, 0, 0, 0, 0)             //   target number
+		b = append(b, bytes.Repeat([]byte{3}, 64+32)...)  //   signature, id
+		b = append(b, byte(anc<<2))
+		for i := 0; i < anc; i++ {
+			b = append(b, hdr(byte(5+i))...)
+		}
+		bases = append(bases, append(b, 1))
+	}
+	rng := rand.New(rand.NewSource(vSeed() + 77))
+	n := 600
+	if vThorough() {
+		n = 12000
+	}
+	small := []byte{0, 1, 2, 3, 4, 5, 8, 12, 16, 0x7f, 0x80, 0xfc, 0xfd, 0xfe, 0xff}
+	for i := 0; i < n; i++ {
+		b := append([]byte(nil), bases[i%len(bases)]...)
+		if i >= len(bases) {
+			switch k := rng.Intn(5); {
+			case k == 0:
+				b = b[:rng.Intn(len(b))]
+			case k <= 2:
+				b[rng.Intn(len(b))] = small[rng.Intn(len(small))]
+			case k == 3:
+				p := rng.Intn(len(b))
+				b = append(b[:p], b[p+1:]...)
+			default:
+				p := rng.Intn(len(b) + 1)
+				b = append(b[:p], append([]byte{small[rng.Intn(len(small))]}, b[p:]...)...)
+			}
+		}
+		// the headers hold byte strings (digest items): a length prefix in 4-byte or big-integer mode can declare
+		// gigabytes which the SCALE library allocates up front (recorded under C12): keep such bytes out
+		for j := range b {
+			if b[j]&3 >= 2 {
+				b[j] &^= 2
+			}
+		}
+		res.Case("seeded/warpproof", "")
+		raw := json.RawMessage(vJSON([]any{map[string]any{"o": map[string]any{"op": "seeded", "ty": "warpproof", "b": b}}}))
+		var p WarpSyncProof
+		var err error
+		var alloc uint64
+		in := append([]byte(nil), b...)
+		pm, to := vGuard(20*time.Second, func() { alloc = vwAllocDuring(func() { err = scale.Unmarshal(in, &p) }) })
+		res.Cmp()
+		switch {
+		case to:
+			res.Fail(-1, i, "warpproof", "decode", "proof or error", "timeout", "C33/seeded/warpproof/timeout", raw)
+			continue
+		case pm != "":
+			cl := "other"
+			if strings.Contains(pm, "nil pointer dereference") {
+				cl = "nil-pointer"
+			}
+			res.Fail(-1, i, "warpproof", "decode", "proof or error", pm, "C33/seeded/warpproof/panic/"+cl, raw)
+			continue
+		}
+		if alloc > vwBudget(len(b))+1<<20 {
+			res.Fail(-1, i, "warpproof", "allocation", fmt.Sprint("<= ", vwBudget(len(b))+1<<20), fmt.Sprint(alloc), "C33/seeded/warpproof/alloc", raw)
+		}
+		if err != nil {
+			if i < len(bases) {
+				res.Fail(-1, i, "warpproof", "decode(valid)", "proof", "error: "+err.Error(), "C33/seeded/warpproof/rejects-valid", raw)
+			}
+			continue
+		}
+		re, err2 := scale.Marshal(p)
+		res.Cmp()
+		switch {
+		case err2 != nil:
+			res.Fail(-1, i, "warpproof", "re-encode", "bytes", "error: "+err2.Error(), "C33/seeded/warpproof/reencode-error", raw)
+		case vwZeroFilled(b, re):
+			res.Fail(-1, i, "warpproof", "decode", "error (input ends inside a fixed-width integer)", "accepted", "C33/seeded/warpproof/zero-filled", raw)
+		case !bytes.HasPrefix(b, re):
+			res.Fail(-1, i, "warpproof", "decode", "accepted input starts with the encoding of the decoded proof", vHex(re), "C33/seeded/warpproof/not-canonical-prefix", raw)
+		}
+	}
 }
 
 // vwSeeded: seeded random edits of the valid messages, judged declaratively: no panic, bounded time and
